@@ -7,7 +7,8 @@ LEVEL = "proof"
 RULE = ("Lean: on the model of GetMethodT/getParentMethodT over Go-map models of TFrame and ClassInheritanceMap (any graph, cycles included): a resolved definition always carries the asked method "
         "name and privacy flag and exists in the table; the class's own definition wins; a direct superclass's / included module's definition is found; nothing is resolved when no key of that name "
         "exists. End-to-end: generated hierarchies (superclass chains of depth 1-4, included and extended modules, class << self, initialize, private/protected/public sections) with calls whose "
-        "outcome (resolves / is reported on its row) is computed by a reference model of Ruby's rules. Non-trivial = a hierarchy with at least one inherited call.")
+        "outcome (resolves / is reported on its row) is computed by a reference model of Ruby's rules; plus same-named classes at several lexical levels with an unqualified superclass inside nested modules "
+        "(the innermost enclosing definition is the parent: C27's superclass_innermost, tied by the findns stream). Non-trivial = a hierarchy with at least one inherited call.")
 
 
 def gen_case(rng, k):
@@ -111,10 +112,51 @@ def gen_case(rng, k):
     return "\n".join(lines) + "\n", expect_bad, first_call_row, inherited
 
 
+def gen_ns_case(rng, k):
+    """classes of one short name at several lexical levels; `class Sub < Core` must inherit from the innermost enclosing definition"""
+    core = "Core%d" % k
+    depth = rng.randint(2, 3)                      # the subclass lives inside `depth` nested modules
+    mods = ["Nz%d%s" % (k, "abc"[i]) for i in range(depth)]
+    levels = [l for l in range(depth + 1) if rng.random() < 0.6]      # level 0 = top level, level i = inside mods[:i]
+    if not levels:
+        levels = [rng.randint(0, depth)]
+    lines = []
+
+    def core_def(l, ind):
+        return [ind + "class %s" % core, ind + "  def lv%d_only%d" % (l, k), ind + "    1", ind + "  end",
+                ind + "  def self.mk%d_%d" % (l, k), ind + "    2", ind + "  end", ind + "end"]
+
+    if 0 in levels:
+        lines += core_def(0, "")
+    for i in range(depth):
+        lines.append("  " * i + "module %s" % mods[i])
+        if (i + 1) in levels:
+            lines += core_def(i + 1, "  " * (i + 1))
+    ind = "  " * depth
+    lines += [ind + "class Sub%d < %s" % (k, core), ind + "  def own%d" % k, ind + "    1", ind + "  end", ind + "end"]
+    for i in reversed(range(depth)):
+        lines.append("  " * i + "end")
+    first = len(lines) + 1
+    q = "::".join(mods) + "::Sub%d" % k
+    lines.append("sb = %s.new" % q)
+    resolved = max(levels)
+    bad = set()
+    lines.append("sb.own%d" % k)
+    for l in range(depth + 1):
+        if l in levels:
+            lines.append("sb.lv%d_only%d" % (l, k))
+            if l != resolved:
+                bad.add(len(lines))
+            lines.append("%s.mk%d_%d" % (q, l, k))
+            if l != resolved:
+                bad.add(len(lines))
+    return "\n".join(lines) + "\n", bad, first, 1 if len(levels) > 1 else 0
+
+
 def run_e2e(ctx, n, tag):
     rng = ctx.rng
     wd = common.make_workdir(ctx, "e2e" + tag)
-    cases = [gen_case(rng, k) for k in range(n)]
+    cases = [gen_case(rng, k) for k in range(n)] + [gen_ns_case(rng, 5000 + k) for k in range(max(10, n // 5))]
 
     def one(iv):
         k, (text, bad, first, inh) = iv
@@ -152,14 +194,17 @@ def run_e2e(ctx, n, tag):
 
 
 def run(ctx):
+    from . import C27
     common.build_ti(ctx)
-    proof_ok = common.prove(ctx)
+    common.build_godrv(ctx)
+    proof_ok = common.prove(ctx, extra_modules=["RubyTi.Props.C27"])
+    dis = common.run_stream(ctx, "findns", [C27.gen_findns(ctx.rng) for _ in range(ctx.pick(3000, 30000))])
     failures = run_e2e(ctx, ctx.pick(400, 4000), "a")
 
     def search():
         return run_e2e(ctx, 800, "s")
 
-    common.conclude(ctx, proof_ok, {}, failures, search)
+    common.conclude(ctx, proof_ok, {"findns": dis}, failures, search)
     evidence(ctx)
 
 
